@@ -19,6 +19,7 @@ import Dippy.Model.Action
 import Dippy.Model.Syntax
 import Dippy.Model.Scan
 import Dippy.Model.PyStr
+import Dippy.Generated.Quoting
 
 namespace Dippy
 
@@ -79,6 +80,104 @@ def stripQuotes (v : String) : String :=
 
 /-- `_get_word_value` -/
 def wordValue (w : Word) : String := stripQuotes w.value
+
+/-! ### bash quote removal (`_remove_quotes`) -/
+
+inductive QMode where
+  | plain | single | double | ansi
+  deriving DecidableEq, Repr
+
+def isOctDigit (c : Char) : Bool := '0' ≤ c && c ≤ '7'
+def hexDigitVal (c : Char) : Option Nat :=
+  if '0' ≤ c && c ≤ '9' then some (c.toNat - '0'.toNat)
+  else if 'a' ≤ c && c ≤ 'f' then some (c.toNat - 'a'.toNat + 10)
+  else if 'A' ≤ c && c ≤ 'F' then some (c.toNat - 'A'.toNat + 10)
+  else none
+def isHexDigit (c : Char) : Bool := (hexDigitVal c).isSome
+
+/-- at most `k` leading characters satisfying `p`, and what follows them (`{1,k}` of a regex, greedy) -/
+def takeUpTo (p : Char → Bool) : Nat → List Char → List Char × List Char
+  | 0, l => ([], l)
+  | _, [] => ([], [])
+  | k + 1, c :: r => if p c then (c :: (takeUpTo p k r).1, (takeUpTo p k r).2) else ([], c :: r)
+
+def digitsVal (base : Nat) (ds : List Char) : Nat := ds.foldl (fun acc c => acc * base + (hexDigitVal c).getD 0) 0
+
+/-- `chr(code) if 0 < code < 0x110000 else ""` (surrogate code points are outside the model: Lean's `Char` has none) -/
+def codeChars (code : Nat) : List Char := if 0 < code ∧ code < 0x110000 then [Char.ofNat code] else []
+
+/-- the scanning loop of `_remove_quotes`; `none`: an unclosed quote (the caller falls back to `_strip_quotes`).
+    `acc` is the output so far, reversed. -/
+def rqLoop (esc : List (Char × Char)) : Nat → QMode → List Char → List Char → Option (List Char)
+  | 0, _, _, _ => none
+  | _ + 1, .plain, [], acc => some acc.reverse
+  | _ + 1, _, [], _ => none
+  | f + 1, .plain, c :: rest, acc =>
+    if c = '\\' then
+      match rest with
+      | [] => rqLoop esc f .plain [] (c :: acc)
+      | d :: r => rqLoop esc f .plain r (if d = '\n' then acc else d :: acc)
+    else if c = '\'' then rqLoop esc f .single rest acc
+    else if c = '"' then rqLoop esc f .double rest acc
+    else if c = '$' then
+      match rest with
+      | '"' :: r => rqLoop esc f .double r acc
+      | '\'' :: r => rqLoop esc f .ansi r acc
+      | _ => rqLoop esc f .plain rest (c :: acc)
+    else rqLoop esc f .plain rest (c :: acc)
+  | f + 1, .single, c :: rest, acc =>
+    if c = '\'' then rqLoop esc f .plain rest acc else rqLoop esc f .single rest (c :: acc)
+  | f + 1, .double, c :: rest, acc =>
+    if c = '"' then rqLoop esc f .plain rest acc
+    else if c = '\\' then
+      match rest with
+      | d :: r =>
+        if d = '$' ∨ d = '`' ∨ d = '"' ∨ d = '\\' ∨ d = '\n' then rqLoop esc f .double r (if d = '\n' then acc else d :: acc)
+        else rqLoop esc f .double rest (c :: acc)
+      | [] => rqLoop esc f .double rest (c :: acc)
+    else rqLoop esc f .double rest (c :: acc)
+  | f + 1, .ansi, c :: rest, acc =>
+    if c = '\'' then rqLoop esc f .plain rest acc
+    else if c = '\\' then
+      match rest with
+      | [] => rqLoop esc f .ansi rest (c :: acc)
+      | e :: r =>
+        match (esc.find? (·.1 == e)).map (·.2) with
+        | some ch => rqLoop esc f .ansi r (ch :: acc)
+        | none =>
+          if isOctDigit e then
+            rqLoop esc f .ansi (takeUpTo isOctDigit 3 rest).2 ((codeChars (digitsVal 8 (takeUpTo isOctDigit 3 rest).1)).reverse ++ acc)
+          else if e = 'x' ∧ (r.head?.map isHexDigit).getD false then
+            rqLoop esc f .ansi (takeUpTo isHexDigit 2 r).2 ((codeChars (digitsVal 16 (takeUpTo isHexDigit 2 r).1)).reverse ++ acc)
+          else if e = 'u' ∧ (r.head?.map isHexDigit).getD false then
+            rqLoop esc f .ansi (takeUpTo isHexDigit 4 r).2 ((codeChars (digitsVal 16 (takeUpTo isHexDigit 4 r).1)).reverse ++ acc)
+          else if e = 'U' ∧ (r.head?.map isHexDigit).getD false then
+            rqLoop esc f .ansi (takeUpTo isHexDigit 8 r).2 ((codeChars (digitsVal 16 (takeUpTo isHexDigit 8 r).1)).reverse ++ acc)
+          else if e = 'c' then
+            match r with
+            | x :: r2 => rqLoop esc f .ansi r2 (Char.ofNat (x.toNat &&& 0x1F) :: acc)
+            | [] => rqLoop esc f .ansi rest (c :: acc)
+          else rqLoop esc f .ansi rest (c :: acc)
+    else rqLoop esc f .ansi rest (c :: acc)
+
+/-- `p in s` on character lists -/
+def infixB (p : List Char) : List Char → Bool
+  | [] => p.isEmpty
+  | c :: r => p.isPrefixOf (c :: r) || infixB p r
+
+/-- a word with an expansion that has a quoting context of its own -/
+def hasOwnQuotingContext (v : String) : Bool :=
+  infixB ['$', '('] v.toList || Py.hasChar v '`' || infixB ['$', '{'] v.toList || infixB ['<', '('] v.toList || infixB ['>', '('] v.toList
+
+/-- `_remove_quotes`: the word a program receives for this source text (`esc` = `_ANSI_C_ESCAPES`, from T0) -/
+def removeQuotesWith (esc : List (Char × Char)) (v : String) : String :=
+  if hasOwnQuotingContext v then stripQuotes v
+  else match rqLoop esc (v.length + 2) .plain v.toList [] with
+    | some out => String.ofList out
+    | none => stripQuotes v
+
+/-- `_remove_quotes` with the source's escape table -/
+def removeQuotes (v : String) : String := removeQuotesWith Generated.Quoting.ansiCEscapes v
 
 /-- `[A-Za-z_]` -/
 def isNameStart (c : Char) : Bool := c.isAlpha || c == '_'
@@ -351,6 +450,8 @@ def isPureCmdsub (wd : Word) : Bool :=
 /-- what `_analyze_command` computes before its loops -/
 structure CmdCtx where
   words : List String
+  /-- the words after bash's quote removal (`unquoted` in `_analyze_command`) -/
+  unquoted : List String
   baseIdx : Nat
   base : String
   hasHandler : Bool
@@ -360,7 +461,7 @@ def mkCmdCtxS (hasHandler simpleSafe : String → Bool) (ws : List Word) : CmdCt
   let words := ws.map wordValue
   let baseIdx := skipAssign (ws.map Word.value)
   let base := words.getD baseIdx ""
-  { words, baseIdx, base, hasHandler := hasHandler base, isSimpleSafe := simpleSafe base }
+  { words, unquoted := ws.map (fun wd => removeQuotes wd.value), baseIdx, base, hasHandler := hasHandler base, isSimpleSafe := simpleSafe base }
 
 abbrev mkCmdCtx (w : World) (ws : List Word) : CmdCtx := mkCmdCtxS w.hasHandler w.simpleSafe ws
 
@@ -375,6 +476,14 @@ def injectionRisk (w : World) (ctx : CmdCtx) (wd : Word) (position : Nat) : List
 /-- when `_analyze_cond_operand` re-reads the operand's text: no parts, a single quote in it, or the right of `=~` -/
 def condRescan (v : String) (ps : List Part) (regex : Bool) : Bool :=
   ps.isEmpty || regex || Py.hasChar v '\''
+
+/-- the end of `_analyze_command`: the command as spelled, and – when quote removal changes a word and the verdict
+    gets stricter – the command as bash reads it -/
+def cmdDecisions (w : World) (rec : Rec) (h : HelpTables) (words unquoted : List String) (baseIdx : Nat)
+    (cwd : String) (remote : Bool) : List Decision :=
+  let d := simpleCmd w rec h (words.length + 1) (words.drop baseIdx) cwd remote
+  let d2 := simpleCmd w rec h (unquoted.length + 1) (unquoted.drop baseIdx) cwd remote
+  if unquoted != words && d.action.rank < d2.action.rank then [d, d2] else [d]
 
 section Walk
 variable (w : World) (rec : Rec) (h : HelpTables)
@@ -393,7 +502,7 @@ def aNode : Node → String → Bool → Decision
     else if ctx.baseIdx ≥ ctx.words.length then
       combine (ds ++ [⟨.allow, "env assignment"⟩])
     else
-      combine (ds ++ [simpleCmd w rec h (ctx.words.length + 1) (ctx.words.drop ctx.baseIdx) cwd remote])
+      combine (ds ++ cmdDecisions w rec h ctx.words ctx.unquoted ctx.baseIdx cwd remote)
   | .pipeline cmds, cwd, remote =>
     let ds := aNodes cmds cwd remote
     let r := combine ds
